@@ -68,7 +68,7 @@ func c16Ops(u *nodelite.Universe, thorough bool) []c16Op {
 	ops = append(ops, up("E"), up("P"), up("R"), cache("A"), cache("R"), cache("D"),
 		del("A"), del("E"), del("P"), del("R"), restart)
 	if thorough {
-		ops = append(ops, up("A"), up("D"), del("D"), up("B"), cache("B"), cache("E"), cache("P"), del("B"), pin("A"), unpin("A"))
+		ops = append(ops, up("A"), up("B"), cache("B"), cache("E"), cache("P"), del("B"), pin("A"), unpin("A"))
 	}
 	return ops
 }
